@@ -40,12 +40,15 @@ type Lval struct {
 }
 
 type State struct {
-	epoch int
-	comp  map[string]string
+	epoch  int
+	gepoch int // epoch of ghost components (they survive `modifies *` of a contract)
+	comp   map[string]string
 }
 
+func isGhostComp(c string) bool { return strings.HasPrefix(c, "Ghost$") }
+
 func (s *State) clone() *State {
-	n := &State{epoch: s.epoch, comp: make(map[string]string, len(s.comp))}
+	n := &State{epoch: s.epoch, gepoch: s.gepoch, comp: make(map[string]string, len(s.comp))}
 	for k, v := range s.comp {
 		n.comp[k] = v
 	}
@@ -101,6 +104,7 @@ type FnVC struct {
 	pkg      *types.Package
 	extraAssume []string // known-finding guards: assumed at entry
 	unmodelled map[string]bool
+	constCapture map[ssa.Value]TV
 	nSmoke   int
 }
 
@@ -121,7 +125,7 @@ func newFnVC(p *Prog, fn *ssa.Function, fc *FuncContract, id string) *FnVC {
 		vals: map[ssa.Value]Val{}, reach: map[*ssa.BasicBlock]string{}, out: map[*ssa.BasicBlock]*State{},
 		compSort: map[string]string{}, params: map[string]Val{}, freshRef: map[string]bool{},
 		loops: map[*ssa.BasicBlock]*loopInfo{}, backEdge: map[[2]*ssa.BasicBlock]bool{}, oblNames: map[string]int{},
-		rangeSeen: map[*ssa.Range]string{}, unmodelled: map[string]bool{}}
+		rangeSeen: map[*ssa.Range]string{}, unmodelled: map[string]bool{}, constCapture: map[ssa.Value]TV{}}
 	if fn.Pkg != nil {
 		vc.pkg = fn.Pkg.Pkg
 	} else if fn.Parent() != nil && fn.Parent().Pkg != nil {
@@ -225,7 +229,11 @@ func (vc *FnVC) compInit(st *State, comp string) string {
 	if !ok {
 		panic("internal: component " + comp + " has no sort")
 	}
-	name := fmt.Sprintf("%s!e%d", comp, st.epoch)
+	ep := st.epoch
+	if isGhostComp(comp) {
+		ep = st.gepoch
+	}
+	name := fmt.Sprintf("%s!e%d", comp, ep)
 	vc.enc.declConst(name, sort)
 	return name
 }
@@ -260,11 +268,23 @@ func (vc *FnVC) havocComp(st *State, comp string) string {
 	return n
 }
 
-func (vc *FnVC) havocAll(st *State) {
+// havocAll: everything may have changed. With keepGhost, ghost components survive (a
+// contract's `modifies *` speaks about program memory; ghost state changes only when named).
+func (vc *FnVC) havocAll(st *State, keepGhost ...bool) {
 	vc.epochCtr++
 	alloc := vc.cur(st, "alloc")
 	st.epoch = vc.epochCtr
+	old := st.comp
 	st.comp = map[string]string{}
+	if len(keepGhost) > 0 && keepGhost[0] {
+		for k, v := range old {
+			if isGhostComp(k) {
+				st.comp[k] = v
+			}
+		}
+	} else {
+		st.gepoch = vc.epochCtr
+	}
 	// the allocation counter only grows
 	n := vc.havocComp(st, "alloc")
 	vc.assume("(>= " + n + " " + alloc + ")")
